@@ -73,4 +73,13 @@ TEXT["C17"] = {
     "note": _TB + "Partial: writes outside ArrayBytesFixedDisjointView (raw pointers, external codecs) are not observable by the model or the hook; memory safety itself is not proved.",
     "technique": "Lean 4 tiling proof (permutation of byte ranges) + recorded write maps judged by a proved-equivalent executable predicate",
 }
+TEXT["C18"] = {
+    "level": "Machine-checked linearizability proof (any number of threads, any programs, any schedule): every complete execution of the repaired MemoryStore lock protocol (set / partial set / get / "
+             "ranged get / size / erase on one key, including the case where an erase orphans a value another thread is about to read) has a total order respecting real time that is a legal run of an "
+             "atomic register with the observed responses and the final stored value; a get never returns a value nobody wrote; the protocol always runs to completion; the same for the "
+             "FilesystemStore per-key RwLock protocol; the protocols as found are proved NOT linearizable by explicit witnesses (reader sees Some([]); size_key sees 0). The models' atomic steps are "
+             "aligned with yield hooks H1/H2: every schedule of the enumerated programs is replayed on the real stores and the responses compared with the model's.",
+    "note": _TB + "Partial: parking_lot/std lock semantics and atomicity of OS file operations inside one critical section are assumed; one key is modelled (other keys share only the map mutex / lock registry).",
+    "technique": "Lean 4 linearization-point proof with ghost state + exhaustive schedule replay on the real stores through yield hooks",
+}
 NOT_YET = {}
